@@ -51,6 +51,20 @@ func (c *fnCtx) resolveCallee(cc *ssa.CallCommon) calleeInfo {
 	}
 	if fn == nil {
 		ci.dynamic = true
+		// a call through a function-valued struct field (a host callback) may have an assumed
+		// contract under the key <pkg>.<Type>.<field>
+		if key, con := c.g.fieldFuncContract(cc.Value); con != nil {
+			ci.key, ci.con, ci.dynamic = key, con, false
+			ps := ci.sig.Params()
+			for i := 0; i < ps.Len(); i++ {
+				n := ps.At(i).Name()
+				if n == "" || n == "_" {
+					n = fmt.Sprintf("arg%d", i)
+				}
+				ci.names = append(ci.names, n)
+				ci.ptypes = append(ci.ptypes, ps.At(i).Type())
+			}
+		}
 		return ci
 	}
 	ci.fn = fn
@@ -478,6 +492,57 @@ func (c *fnCtx) applyContract(st *State, ci calleeInfo, args []SymVal, rt types.
 			props = c.propsFor(nil)
 		}
 		c.oblige(st, "pre:"+short, t, r.Text, props, pos)
+	}
+	// termination: a call between two functions that both declare a measure must decrease it
+	// (lexicographically; the component that decreases must be non-negative in the caller)
+	if len(con.Decreases) > 0 && c.con != nil && len(c.con.Decreases) > 0 {
+		cenv := c.newEnv(pre, pre)
+		cenv.calleePkg = con.Pkg
+		bind(cenv)
+		eenv := c.newEnv(c.entry, c.entry)
+		var cal, own []string
+		ok := true
+		for _, m := range con.Decreases {
+			v, err := cenv.evalText(m)
+			if err != nil || v.K != KInt {
+				c.abort("%s: decreases of %s: %v", con.DecreasesPos, ci.key, err)
+				ok = false
+				break
+			}
+			cal = append(cal, v.S)
+		}
+		for _, m := range c.con.Decreases {
+			v, err := eenv.evalText(m)
+			if err != nil || v.K != KInt {
+				c.abort("%s: decreases: %v", c.con.DecreasesPos, err)
+				ok = false
+				break
+			}
+			own = append(own, v.S)
+		}
+		if ok {
+			n := len(cal)
+			if len(own) < n {
+				n = len(own)
+			}
+			var alts []string
+			eq := "true"
+			for i := 0; i < n; i++ {
+				alts = append(alts, sAnd(eq, app("<", cal[i], own[i]), app("<=", "0", own[i])))
+				eq = sAnd(eq, sEq(cal[i], own[i]))
+			}
+			props := append([]string{}, c.con.Props...)
+			hasC02 := false
+			for _, p := range props {
+				if p == "C02" {
+					hasC02 = true
+				}
+			}
+			if !hasC02 {
+				props = append(props, "C02") // unbounded recursion exhausts the Go stack: a host crash
+			}
+			c.oblige(st, "decreases:"+short, sOr(alts...), "measure ("+strings.Join(con.Decreases, ", ")+") of the callee is below ("+strings.Join(c.con.Decreases, ", ")+") of the caller", props, pos)
+		}
 	}
 	// havoc
 	for _, gm := range con.GhostMods {
